@@ -302,6 +302,123 @@ fn shapes<const N: usize>() -> String {
         if mm(|| p.remove(Path::new("var//log"))) != Some(2) || mm(|| p.len()) != 2 {
             return esc("(PathBuf, u32): remove through a differently spelled &Path");
         }
+        // every other operation that takes the borrowed form, through other spellings
+        let mut p: Map<PathBuf, u32, N> = mm(Map::new);
+        for (k, v) in [("usr/lib", 1u32), ("var/log/", 2), ("a", 3)] {
+            mm(|| p.insert(PathBuf::from(k), v));
+        }
+        if mm(|| p.get_mut(Path::new("usr//lib"))).map(|v| {
+            *v += 10;
+            *v
+        }) != Some(11)
+        {
+            return esc("(PathBuf, u32): get_mut through a differently spelled &Path");
+        }
+        if mm(|| p.get_key_value(Path::new("a/"))).map(|(k, v)| (k.clone(), *v)) != Some((PathBuf::from("a"), 3)) {
+            return esc("(PathBuf, u32): get_key_value through a differently spelled &Path");
+        }
+        {
+            let [x, y, z] = mm(|| p.get_disjoint_mut([Path::new("var/log"), Path::new("b"), Path::new("usr/lib/")]));
+            if x.map(|v| *v) != Some(2) || y.is_some() || z.map(|v| *v) != Some(11) {
+                return esc("(PathBuf, u32): get_disjoint_mut through differently spelled &Path differs from get_mut");
+            }
+        }
+        let two = std::panic::catch_unwind(std::panic::AssertUnwindSafe(|| {
+            let [a, b] = mm(|| p.get_disjoint_mut([Path::new("usr/lib"), Path::new("usr//lib")]));
+            a.is_some() && b.is_some()
+        }));
+        if two.is_ok() {
+            return esc("(PathBuf, u32): get_disjoint_mut with two spellings of one present key did not panic");
+        }
+        if mm(|| p.remove_entry(Path::new("var/log"))) != Some((PathBuf::from("var/log/"), 2)) || mm(|| p.len()) != 2 {
+            return esc("(PathBuf, u32): remove_entry through a differently spelled &Path");
+        }
+        let mut ps: Set<PathBuf, N> = mm(Set::new);
+        for k in ["usr/lib", "var/log/", "a"] {
+            mm(|| ps.insert(PathBuf::from(k)));
+        }
+        if !mm(|| ps.contains(Path::new("usr//lib")))
+            || mm(|| ps.get(Path::new("var/log"))) != Some(&PathBuf::from("var/log/"))
+            || mm(|| ps.insert(PathBuf::from("a/")))
+            || mm(|| ps.take(Path::new("usr/lib/"))) != Some(PathBuf::from("usr/lib"))
+            || !mm(|| ps.remove(Path::new("a/")))
+            || mm(|| ps.len()) != 1
+        {
+            return esc("Set<PathBuf>: contains / get / insert / take / remove through differently spelled &Path");
+        }
+    }
+    if N >= 4 {
+        // a key type without drop glue, 4 bytes wide, whose `==` is not transitive (|a - b| <= 1): one
+        // query can equal two stored keys.  Wrong answers are allowed; handing out a slot that is not
+        // live, leaking or destroying twice is not.
+        use std::rc::Rc;
+        #[derive(Clone, Copy, Debug)]
+        struct Tol(u32);
+        impl PartialEq for Tol {
+            fn eq(&self, o: &Tol) -> bool {
+                self.0.abs_diff(o.0) <= 1
+            }
+        }
+        impl Eq for Tol {}
+        let rcs: Vec<Rc<u32>> = (0..8).map(|i| Rc::new(100 + i)).collect();
+        {
+            let mut t: Map<Tol, Rc<u32>, N> = mm(Map::new);
+            for (i, k) in [10u32, 1, 3, 20].into_iter().enumerate() {
+                mm(|| t.insert(Tol(k), rcs[i].clone()));
+            }
+            mm(|| t.remove(&Tol(20))); // a moved-out slot above len
+            for q in [2u32, 0, 4, 9, 11, 2] {
+                let live: Vec<u32> = t.iter().map(|(_, v)| **v).collect();
+                let got = [
+                    mm(|| t.get(&Tol(q))).map(|v| **v),
+                    mm(|| t.get_key_value(&Tol(q))).map(|(_, v)| **v),
+                    mm(|| t.get_mut(&Tol(q))).map(|v| **v),
+                ];
+                for g in got.into_iter().flatten() {
+                    if !live.contains(&g) {
+                        return esc(&format!("Map<Tol, Rc, N> (non-transitive ==): a lookup of Tol({q}) handed out {g}, which is not a live entry"));
+                    }
+                }
+                let _ = mm(|| t.contains_key(&Tol(q)));
+                // more stored keys may match than were requested: a clean panic is a legitimate answer
+                let dead = std::panic::catch_unwind(std::panic::AssertUnwindSafe(|| {
+                    let [a, b] = mm(|| t.get_disjoint_mut([&Tol(q), &Tol(q + 7)]));
+                    [a, b].into_iter().flatten().any(|g| !live.contains(&**g))
+                }));
+                if matches!(dead, Ok(true)) {
+                    return esc(&format!("Map<Tol, Rc, N> (non-transitive ==): get_disjoint_mut for Tol({q}) handed out a dead entry"));
+                }
+            }
+            mm(|| t.insert(Tol(2), rcs[4].clone()));
+            let _ = mm(|| t.remove(&Tol(2)));
+            let _ = mm(|| t.remove_entry(&Tol(4)));
+            mm(|| t.insert(Tol(2), rcs[5].clone()));
+            let _ = mm(|| t.remove(&Tol(2)));
+            if mm(|| t.len()) > N || t.iter().count() != mm(|| t.len()) {
+                return esc("Map<Tol, Rc, N> (non-transitive ==): len() and iteration disagree");
+            }
+        }
+        if rcs.iter().any(|r| Rc::strong_count(r) != 1) {
+            return esc("Map<Tol, Rc, N> (non-transitive ==): a value was leaked or destroyed twice");
+        }
+    }
+    {
+        // a container larger than 64 KiB: cloning, equality and iteration make no allocator call
+        let mut big: Map<u64, [u64; 1100], 8> = mm(Map::new);
+        for i in 0..5u64 {
+            mm(|| big.insert(i, [i; 1100]));
+        }
+        let before = crate::ctl::allocs();
+        let c = mm(|| big.clone());
+        let same = mm(|| c == big);
+        let n = mm(|| c.iter().count());
+        let after = crate::ctl::allocs();
+        if after != before {
+            return esc(&format!("Map<u64, [u64; 1100], 8> (70 KiB): clone / == / iter made {} allocator call(s)", after - before));
+        }
+        if !same || n != 5 {
+            return esc("Map<u64, [u64; 1100], 8>: the clone differs from its source");
+        }
     }
     "\"ok\"".into()
 }
